@@ -422,7 +422,7 @@ class FileScanHelper:
             if did_anything_get_fixed:
                 if fix_debug and fix_file_debug:
                     print(f"Copy {temporary_line_file_name} to {next_file}")
-                shutil.copyfile(temporary_line_file_name, next_file)
+                self.__replace_file_atomically(temporary_line_file_name, next_file)
         finally:
             if fix_debug and fix_file_debug:
                 print(f"Remove:{temporary_line_file_name}")
@@ -430,6 +430,28 @@ class FileScanHelper:
         return did_anything_get_fixed, collected_line_triggers
 
     # pylint: enable=too-many-arguments, too-many-locals
+
+    @staticmethod
+    def __replace_file_atomically(source_path: str, destination_path: str) -> None:
+        """
+        Replace the destination file with a copy of the source file in such a way
+        that the destination is, at every instant, either the complete old file or
+        the complete new file.  The copy is staged next to the destination and then
+        renamed over it.
+        """
+        actual_destination_path = os.path.realpath(destination_path)
+        with tempfile.NamedTemporaryFile(
+            dir=os.path.dirname(actual_destination_path), delete=False
+        ) as staging_file:
+            staging_path = staging_file.name
+        try:
+            shutil.copyfile(source_path, staging_path)
+            shutil.copymode(actual_destination_path, staging_path)
+            os.replace(staging_path, actual_destination_path)
+        except Exception:
+            if os.path.exists(staging_path):
+                os.remove(staging_path)
+            raise
 
     # pylint: disable=too-many-arguments, too-many-locals
     def __process_file_fix_next_level(
